@@ -95,6 +95,13 @@ Definition ends_with_symbol (b : bstate) : bool :=
   | _ => false
   end.
 
+(* `level > limit` for an optional limit *)
+Definition over (o : option nat) (n : nat) : bool :=
+  match o with Some x => Nat.ltb x n | None => false end.
+
+(* parser/query_parser.go: maxNestingDepth (the driver compares it with the exported constant) *)
+Definition max_nesting_depth : nat := 100 * 100.
+
 Inductive builder :=
 | BKw (sens : bool) (b : bstate)          (* keywordTokenBuilder *)
 | BTx (sens : bool) (b : bstate)          (* textTokenBuilder *)
@@ -106,6 +113,11 @@ Section Legacy.
   Variable case_sensitive : bool.
   (* indexType(mapping, field): 0 noop, 1 keyword or path, 2 text, 3 exists/object/tags/nested *)
   Variable ftype : bytes -> N.
+  (* maxd = the nesting limit of parseSubexpr (Some maxNestingDepth; None = the code before the
+     limit was introduced, `_v0`).  stack = how many nested parseSubexpr frames the goroutine stack
+     can hold (None = the idealised unbounded stack): entering a frame beyond it is the fatal
+     stack overflow, modelled as RPanic. *)
+  Variables maxd stack : option nat.
 
   Definition append_rune_internal (sens : bool) (b : bstate) (r : N) : bstate :=
     let r := if sens then r else to_lower r in
@@ -358,17 +370,21 @@ Section Legacy.
 
     (* parseSubexpr / parseExpr (its first operand) / the `for` loop of parseExpr.
        lv = the leaf table so far: a leaf is Leaf i with i its index in the table.
+       lvl = qp.level at the call: the number of parseSubexpr frames already on the stack.
        Result: ((tree, leaf table), tp.pos) *)
-    Fixpoint bsub (fuel depth pos : nat) (lv : list ltoken) {struct fuel}
+    Fixpoint bsub (fuel depth pos : nat) (lv : list ltoken) (lvl : nat) {struct fuel}
       : R ((ast * list ltoken) * nat) :=
       match fuel with
       | 0 => RFuel
       | S f =>
+        let lvl' := S lvl in                       (* qp.level++ (the frame exists from here on) *)
+        if over stack lvl' then RPanic else
+        if over maxd lvl' then RErr else           (* nested deeper than maxNestingDepth levels *)
         if eof pos then RErr else
         do c <- cur pos;
         if N.eqb c 40 then
           do p1 <- skip_sp (S pos);
-          do st <- bexpr f (S depth) p1 lv;
+          do st <- bexpr f (S depth) p1 lv lvl';
           let '((e, lv2), p2) := st in
           if eof p2 then RErr else
           do c2 <- cur p2;
@@ -378,7 +394,7 @@ Section Legacy.
           do st <- simple_term pos;
           let '(name, p1) := st in
           if eq_fold_ascii name kw_not_r then
-            do st2 <- bsub f depth p1 lv;
+            do st2 <- bsub f depth p1 lv lvl';
             let '((ch, lv2), p2) := st2 in
             ROk ((NotN ch, lv2), p2)
           else
@@ -387,17 +403,17 @@ Section Legacy.
             do e <- and_tree (length lv) k;
             ROk ((e, lv2), p2)
       end
-    with bexpr (fuel depth pos : nat) (lv : list ltoken) {struct fuel}
+    with bexpr (fuel depth pos : nat) (lv : list ltoken) (lvl : nat) {struct fuel}
       : R ((ast * list ltoken) * nat) :=
       match fuel with
       | 0 => RFuel
       | S f =>
-        do st <- bsub f depth pos lv;
+        do st <- bsub f depth pos lv lvl;
         let '((high, lv2), p) := st in
-        bloop f depth None high p lv2
+        bloop f depth None high p lv2 lvl
       end
     with bloop (fuel depth : nat) (low : option ast) (high : ast) (pos : nat) (lv : list ltoken)
-           {struct fuel} : R ((ast * list ltoken) * nat) :=
+           (lvl : nat) {struct fuel} : R ((ast * list ltoken) * nat) :=
       match fuel with
       | 0 => RFuel
       | S f =>
@@ -405,13 +421,13 @@ Section Legacy.
         let '(op, p1) := st in
         let lop := map to_lower op in                 (* strings.ToLower(operator) *)
         if runes_eqb lop kw_and_r then
-          do st2 <- bsub f depth p1 lv;
+          do st2 <- bsub f depth p1 lv lvl;
           let '((rgt, lv2), p2) := st2 in
-          bloop f depth low (AndN high rgt) p2 lv2
+          bloop f depth low (AndN high rgt) p2 lv2 lvl
         else if runes_eqb lop kw_or_r then
-          do st2 <- bsub f depth p1 lv;
+          do st2 <- bsub f depth p1 lv lvl;
           let '((rgt, lv2), p2) := st2 in
-          bloop f depth (Some (join_or low high)) rgt p2 lv2
+          bloop f depth (Some (join_or low high)) rgt p2 lv2 lvl
         else
           match op with
           | [] =>
@@ -427,7 +443,7 @@ Section Legacy.
     (* buildAst on the rune slice *)
     Definition build_ast : R (ast * list ltoken) :=
       do p0 <- skip_sp 0;
-      do st <- bexpr pfuel 0 p0 [];
+      do st <- bexpr pfuel 0 p0 [] 0;
       let '((e, lv), _) := st in ROk (e, lv).
 
     (* ParseAggregationFilter on the rune slice: ROk None = (nil, nil) *)
